@@ -24,16 +24,40 @@ CLAIMED["C02"] = dict(
    note="Bounds: 3 keys, values 0..8, shapes complete to length 3 (+ seeded third of length 4) quick / complete to 4 + 600 seeded of length 5 thorough. Outside (measured intractable): symbolic keys/epoch beyond tiny shapes, the sync-queue path (C03), the runtime MapOperationQueue (BytesMut), take/drop ordering, Recon-equal-but-different key texts, composition of the two coalescing layers across the byte channel and all task interleavings. std HashMap replaced by an association-list shim under cfg(kani); a flat 3-slot MapOps backing stands in for the std maps.",
    ref="DESIGN.md section 4, C02")
 
+CLAIMED["C20"] = dict(
+   text="Bounded symbolic model checking of the real introspection counters (UplinkReporter / UplinkReportReader over three atomics): (S) every sequence of 6 (quick) / 8-10 (thorough) operations with a symbolic operation kind (count_events, count_commands, set_uplinks, snapshot) and a symbolic u64 argument per step, compared after every step with a u128 reference model - nothing lost, nothing counted twice, link count is the last value set and is not consumed; (I) one to three symbolic operations from an arbitrary counter triple; reader liveness after the reporter is dropped.",
+   note="Claimed for the COUNTER half only: the Links registry half (link counts under link/unlink/remove paths) is not applicable - the nested HashMap registry ran out of memory at 40 GB in the feasibility probe even with concrete shape. Assumes each increment/snapshot_value/store is one atomic RMW or CAS loop whose failed iterations have no effect, so a concurrent run equals a sequential order of operations; snapshot() (three atomic operations) is treated as one step; saturation at u64::MAX of the pending counter is by design and outside 'nothing lost'. Call sites that do the counting are not encoded.",
+   ref="DESIGN.md section 4, C20")
+CLAIMED["C01"] = dict(
+   text="Bounded symbolic model checking of the real agent-side ValueStore<u64> kernel (set, replace, init, consume, has_data_to_write, read, with, read_with_prev): every shape of operation kinds up to the stated length with symbolic u64 values; after every operation the dirty flag, current value and previous value are compared with a reference, and at the end of every shape the store is drained: the values handed to the writer are an in-order subsequence of the values held (nothing invented), nothing is owed after the drain and the last value handed out is the current value (never stale).",
+   note="Kernel level only: ValueLane::write_to_buffer is mirrored through its store-level calls (consume for the event branch, read+has_data_to_write for the sync branch) because it is not separable from the Recon encoder; the sync_queue, run_agent's dirty_items loop, the runtime side (ValueBackpressure/Uplinks scheduling), several remotes and all task interleavings are outside. Shapes: all {set,consume} shapes to length 5 and all extended shapes to length 3 (+ seeded longer ones) quick; to 7 / 4 (+512 seeded) thorough. Single-threaded agent task assumed (the store is RefCell/Cell).",
+   ref="DESIGN.md section 4, C01")
+CLAIMED["C07"] = dict(
+   text="Bounded symbolic model checking of the command-relief half: the real ValueBackpressure driven exactly as downlink::write_task drives it (write_direct when idle, push_operation while a write is in flight, has_data/prepare_write when it completes) over every sequence of submissions and completions up to length 3 (quick) / 4 (thorough) with concrete body lengths 0..2 and symbolic body bytes: the frames sent are an in-order subsequence of the commands and once idle the last frame is the last command (only superseded commands are dropped).",
+   note="Claimed for value downlinks' command relief only. Not applicable / outside: consumer attach/sync/linked/unlinked sessions (async select loops over tokio mpsc, timers, FramedRead), MapBackpressure/MapOperationQueue (Recon key comparison), the write task itself - its caller protocol is mirrored from downlink/mod.rs, not encoded. One genuine defect found and repaired (C07-X1).",
+   ref="DESIGN.md section 4, C07")
+CLAIMED["C14"] = dict(
+   text="Bounded symbolic model checking of the supply half at strategy level: the real SupplyBackpressure driven as Uplinks::{push,replace_and_pop} drive it while the remote's writer is lent out, over every sequence of pushes (item length 0..2 concrete, bytes symbolic) and writer hand-backs up to length 3 (quick) / 4 (thorough): items handed out == items pushed - same order, same multiplicity, same bytes; one hand-back per item drains the queue.",
+   note="Claimed for SupplyBackpressure only. Outside: command-lane handler invocation, ad hoc commands (CommandOutput/external_links), the Uplinks scheduler around the strategy (needs RemoteSender/byte channels), the agent-side SupplyLane queue, real channel writes and task interleavings. The caller protocol is mirrored from remotes/uplink/mod.rs, not encoded.",
+   ref="DESIGN.md section 4, C14")
+
+CLAIMED["C18"] = dict(
+   text="Bounded symbolic model checking of the real route matcher and ambiguity check for literal patterns: for every shape (1-2 literal segments of 1-3 bytes per pattern, URI segments of 1-3 bytes; symbolic ASCII content incl. %XX escapes) two patterns and a path-only URI are built and matched with the real RoutePattern::unapply_route_uri: if both patterns match the URI then are_ambiguous must hold (and is symmetric); zero-parameter patterns invert (apply/unapply); matching is deterministic; parse_str agrees field by field with the pattern skeletons the harnesses use.",
+   note="Outside (measured): parameter maps with >=1 parameter (std HashMap in the public signature), RouteUri::from_str (nom + nom_locate + memchr CPU-feature detection: a concrete '/ab' does not finish in 900 s), 'a parameter never binds an empty segment' (>20 GB in decode_utf8_lossy().to_string()), patterns with a scheme, relative patterns, parse_str on symbolic text beyond 2 bytes. Patterns are built from private fields (tied to the real parser by family P and by the native replay, which re-parses with parse_str/from_str). Stubs: RandomState::new (fixed keys; the map stays empty), core::fmt::write (no-op; error message text is not part of the property). One genuine defect found and repaired (C18-X1).",
+   ref="DESIGN.md section 4, C18")
+CLAIMED["C13"] = dict(
+   text="Bounded symbolic model checking of the real RocksDB key encoding (StoreKey::serialize_as_bytes / write_into / map_ubound_bytes): lane ids over all of u64, keys of every length pair 0..3 (quick) / 0..6 (thorough) with symbolic bytes: encodings of different (lane,key) pairs differ, prefix(lane) <= encode(lane,k) < upper_bound(lane) in bytewise order, ranges of different lanes are disjoint, the suffix after MAP_KEY_PREFIX_SIZE is the key, value keys never collide with or fall inside any map key range.",
+   note="Claimed for the key-encoding kernel ONLY. Not applicable: everything behind librocksdb-sys (FFI: put/get/delete_range/iterators, reopen, SIGKILL, merge-operator counter), the fixed 8-byte prefix extractor configured in rocks.rs (interpreted by RocksDB), KeyStore name keys (format!), and the in-memory store (std HashMap; not attempted). Assumes RocksDB's default bytewise comparator.",
+   ref="DESIGN.md section 4, C13")
+
 NA = {
  "C03": "the sync-queue path of WriteQueues does not finish under CBMC even fully concrete (update+sync+3 pops: time-out at 400 s; same shape without sync: 8 s); the runtime half needs Uplinks (byte channel + promise + BytesMut buffers); no smaller kernel carries the property (DESIGN.md section 4/5)",
  "C04": "Uplinks/Links/RemoteTracker/WriteTaskState cannot be encoded within reach: constructing Uplinks needs byte_channel + trigger::promise (Kani ICE in the probe), the nested HashMap registries ran out of memory at 40 GB even with concrete shape, and the BytesMut backpressure buffers hit the double-extend pathology measured for C12",
  "C05": "the property is the order of persist_response before handle_event inside an async select loop, every crash point and restart through tokio tasks; Kani cannot execute the runtime and the only kernel (persist_response) says nothing about order or crashes",
  "C06": "quantifies over handler programs (trees of boxed HandlerActions) run by the agent's async loop; no data-symbolic kernel carries it, program structure can only be enumerated",
- "C07": "consumer sessions live in 1300 lines of async select loops over tokio mpsc/timers/FramedRead; the command-relief half is Value/MapBackpressure over BytesMut (clear+put on a used buffer: the pathology measured for C12)",
  "C08": "on_read/on_event are private async fns over lifecycle futures and tracing, hosted downlinks sit behind the agent HandlerAction machinery; far simpler heap code (C02, C12) is already at CBMC's limit, so no honest bound was in reach",
  "C09": "Recon parser/printers (nom + core::fmt, ~4 kLoC) are beyond CBMC: even tokens::unescape on a 6-byte string times out at 400 s",
  "C11": "the only candidate kernel (escape_if_needed / tokens::unescape) times out at 400 s for 1-6 byte strings (char iterators, scan/flatten/collect); routing through RemoteTask/MultiReader needs the tokio runtime",
- "C14": "SupplyBackpressure / CommandOutput are append-only BytesMut queues: every interesting scenario is two or more appends to one buffer, the exact operation measured not to finish under CBMC (C12)",
  "C15": "both sides of the law (compare_recon_values/recon_hash vs parse_recognize) are the incremental Recon parser (C09 reason)",
  "C16": "derive-generated recognisers + Recon parser + MessagePack reader over heap Value trees, quantified over derived types (programs); C06 + C09 reasons",
 }
